@@ -229,7 +229,7 @@ def byte_trees(ctx, names=('utf8', 'utf8x4', 'utf8x4b', 'mixed', 'mixedlenient')
     return files
 
 
-STRICT_TREES = ['struct', 'lit', 'num', 'numtop', 'numobj', 'str', 'hex', 'tokens', 'nest']
+STRICT_TREES = ['struct', 'lit', 'num', 'numtop', 'numobj', 'str', 'hex', 'tokens', 'nest', 'ws']
 SURR_TREES = ['surr', 'surrkey', 'surropen']
 
 
@@ -237,7 +237,7 @@ def c01(ctx):
     files = parser_trees(ctx, STRICT_TREES) + byte_trees(ctx)
     ctx.replay(files, ['C01.'])
     parser_trace(ctx, ['C01.'])
-    sweeps(ctx, ['raw_str', 'raw_key', 'esc_ascii', 'esc_u', 'esc_pair', 'esc_pair2'], 'C01.sweep',
+    sweeps(ctx, ['raw_str', 'raw_key', 'esc_ascii', 'esc_u', 'esc_pair', 'esc_pair2', 'esc_hexchar'], 'C01.sweep',
            'acceptance of a raw character / escape / escape pair differs from RFC 8259 (run-compressed exhaustive sweep)')
 
 
@@ -245,7 +245,7 @@ def c02(ctx):
     files = parser_trees(ctx, STRICT_TREES)
     ctx.replay(files, ['C02.'])
     parser_trace(ctx, ['C02.'])
-    sweeps(ctx, ['raw_str', 'raw_key', 'esc_ascii', 'esc_u', 'esc_u_key', 'esc_pair', 'esc_pair2', 'combine'], 'C02.sweep',
+    sweeps(ctx, ['raw_str', 'raw_key', 'esc_ascii', 'esc_u', 'esc_u_key', 'esc_pair', 'esc_pair2', 'combine', 'esc_hexchar'], 'C02.sweep',
            'decoding of a character / escape / surrogate pair differs from the specification (run-compressed exhaustive sweep)')
     ctx.notes.append('sweeps: the real parser is run on every element (all scalars raw in strings and keys, all backslash+ASCII pairs, all 65536 '
                      '\\uXXXX in both hex cases, fixed-high x every second escape, every first escape x fixed-low, all 1048576 surrogate pairs); '
